@@ -352,6 +352,21 @@ def rule_setter_guards(ctx):
         ctx.holds('R3', 'Axis.values setter: size guard')
 
 
+def _any_name_equals(a, name=None):
+    """`any(ax.name == <name> for ax in <axes>)`: the membership test `<name> in [ax.name for ax in <axes>]` spelled with any()"""
+    if not (a[0] == 'call' and T.dotted(a[1]) == 'any' and len(a[2]) == 1 and a[2][0][0] == 'comp'):
+        return False
+    elt = a[2][0][2]
+    if not (elt[0] == 'cmp' and elt[1] == '=='):
+        return False
+    sides = (elt[2], elt[3])
+    own = [x for x in sides if x[0] == 'attr' and x[2] in ('name', '_name') and x[1][0] == 'elem']
+    if len(own) != 1:
+        return False
+    other = sides[1] if sides[0] is own[0] else sides[0]
+    return name is None or other == name
+
+
 def rule_names(ctx):
     ctx.rule('R4', 'dimension names: distinct, non-empty str', 3)
     fi = ctx.fn(AX + 'Axes.append')
@@ -363,7 +378,7 @@ def rule_names(ctx):
             if T.dotted(e.a[1]) == 'list.append' or 'super' in T.show(e.a[1]):
                 n += 1
                 new = e.a[2][-1]
-                g = [pol for a, pol in e.guards if a[0] == 'cmp' and a[1] == 'in' and a[2] == ('attr', new, 'name')]
+                g = [pol for a, pol in e.guards if (a[0] == 'cmp' and a[1] == 'in' and a[2] == ('attr', new, 'name')) or _any_name_equals(a, ('attr', new, 'name'))]
                 if g != [False]:
                     ctx.violated('R4', fi, e.node, 'Axes.append must reject an axis whose name already exists', node=e.node)
                     ok = False
@@ -671,6 +686,8 @@ def rule_rename_routes(ctx, rid='R4'):
                 if a[1] == '<=' and r_set and not l_set:
                     return 'eq'
             if a[0] == 'cmp' and a[1] == 'in' and ('name' in T.show(a[2]) or a[2][0] == 'param') and ('dims' in T.show(a[3]) or 'name' in T.show(a[3])):
+                return 'in'
+            if _any_name_equals(a):
                 return 'in'
             return None
         rejects = False
